@@ -14,7 +14,8 @@ int main(int argc, char** argv) {
   vh::SplitMix rng(seed);
   long long cases = 0;
   for (long long it = 0; it < S; ++it) {
-    size_t chunk = size_t{8} << rng.below(4);
+    // chunk sizes: powers of two, and (one case in three) any size 1..70 (not a multiple of the pointer size)
+    size_t chunk = rng.below(3) == 0 ? 1 + rng.below(70) : size_t{8} << rng.below(4);
     size_t k = 1 + rng.below(5);
     size_t allocSize = chunk * k + rng.below(chunk);   // slack bytes at the end of the slab are never handed out
     std::printf("Q pallocseq reset %zu => ok\n", k);
